@@ -42,6 +42,15 @@ def body_log(tag, vals):
             f.write(f"{tag}|{vals!r}\n")
 
 
+def private_hash_cache(scratch):
+    """Point pydra's persistent file-hash cache (documented variable PYDRA_HASH_CACHE) at the
+    scratch directory: the shared default directory is scanned on every task run
+    (PersistentCache.clean_up) and grows with every run on this machine."""
+    d = Path(scratch) / "hashes"
+    d.mkdir(exist_ok=True)
+    os.environ["PYDRA_HASH_CACHE"] = str(d)
+
+
 # --------------------------------------------------------------------------- TLC side
 def rules_cfg(path, N, kinds, maxmand=0, reqsets=2, reqs=2, owners=1, maxxor=1, mingroup=2,
               maxgroup=4, shard=0, nshards=1, invariants=("Emit", "Theorems")):
